@@ -1286,6 +1286,12 @@ fn prov_labels() -> Vec<(&'static str, &'static str)> {
         ("BootstrapWitnesses", "prov_pair_bootstraps"), ("TransactionWitnessSet", "prov_pair_native_scripts_in_ws"),
         ("TransactionWitnessSet", "prov_pair_plutus_scripts_in_ws"),
         ("Transaction", "pin_net_zero_mint"), ("Transaction", "pin_collateral_zero_only_policy"), ("Transaction", "pin_mixed_bundle_output"),
+        ("Assets", "json_asset_name"), ("Assets", "json_assets"), ("MultiAsset", "json_multiasset"), ("Value", "json_value"), ("Mint", "json_mint"),
+        ("TransactionOutput", "json_output"), ("TransactionBody", "json_body"), ("Transaction", "json_transaction"),
+        ("Anchor", "json_url"), ("Anchor", "json_anchor"), ("PoolMetadata", "json_pool_metadata"), ("Certificate", "json_cert_pool_registration"),
+        ("Certificate", "json_cert_drep_anchor"), ("VotingProposal", "json_proposal_anchor"),
+        ("Relay", "json_dns_a"), ("Relay", "json_dns_srv"), ("Relay", "json_relay"),
+        ("GeneralTransactionMetadata", "json_metadata_text"), ("AuxiliaryData", "json_aux_text"),
     ]
 }
 fn dec<T, E>(r: Result<T, E>) -> Result<T, ()> { r.map_err(|_| ()) }
@@ -1562,6 +1568,77 @@ fn prov(ty: &str, label: &str, k: u64) -> Option<Result<Vec<u8>, ()>> {
                 }
             };
             run(g).map_err(|_| ())
+        }
+        // JSON AS A PROVENANCE: a valid value is written with to_json, the text of one size-bounded field is replaced by a longer
+        // (or boundary) one, and the result is read back with the type's from_json (and the enclosing types' from_json).  The
+        // reader must refuse, or what it accepted must be emitted as conforming bytes.
+        l if l.starts_with("json_") => {
+            let nv = k % 8;                                  // length variant: bound-1, bound, bound+1, bound+2, 2*bound, bound+1 (multi-byte) ...
+            let len_for = |bound: usize| -> usize { match nv { 0 => bound - 1, 1 => bound, 2 => bound + 1, 3 => bound + 2, 4 => 2 * bound, 5 => bound + 1, 6 => bound, _ => 3 * bound } };
+            // asset names: the marker name a5a5a5a5a5a5a5 is replaced by a name of the variant's length
+            let name_marker = vec![0xa5u8; 7];
+            let marker_hex = hex::encode(&name_marker);
+            let new_name_hex = hex::encode(g.bytes(len_for(32)));
+            let mname = AssetName::new(name_marker.clone()).unwrap();
+            let swap_name = |json: String| json.replace(&marker_hex, &new_name_hex);
+            // texts: the marker zqxjkvzqxjkv is replaced by a text of the variant's BYTE length (ASCII, or 2-byte code points for nv 5, 6)
+            let tmarker = "zqxjkvzqxjkv";
+            let new_text = |g: &mut G, bound: usize| -> String { text_of_bytes(g, len_for(bound), if nv == 5 || nv == 6 { 2 } else { 1 }) };
+            let pid = g.sh();
+            let mut assets = Assets::new(); assets.insert(&mname, &bn(g.pos())); if g.chance(1, 2) { assets.insert(&g.asset_name(), &bn(g.pos())); }
+            let mut ma = MultiAsset::new(); ma.insert(&pid, &assets);
+            let value = Value::new_with_assets(&bn(2 * ADA), &ma);
+            let js = |r: Result<String, JsError>| -> Result<String, ()> { r.map_err(|_| ()) };
+            match l {
+                "json_asset_name" => dec(AssetName::from_json(&format!("\"{}\"", new_name_hex))).map(|n| { let mut a = Assets::new(); a.insert(&n, &bn(1)); a.to_bytes() }),
+                "json_assets" => js(assets.to_json()).and_then(|j| dec(Assets::from_json(&swap_name(j)))).map(|x| x.to_bytes()),
+                "json_multiasset" => js(ma.to_json()).and_then(|j| dec(MultiAsset::from_json(&swap_name(j)))).map(|x| x.to_bytes()),
+                "json_value" => js(value.to_json()).and_then(|j| dec(Value::from_json(&swap_name(j)))).map(|x| x.to_bytes()),
+                "json_mint" => { let mas = MintAssets::new_from_entry(&mname, &Int::new_i32(5)).unwrap(); let m = Mint::new_from_entry(&pid, &mas);
+                    js(m.to_json()).and_then(|j| dec(Mint::from_json(&swap_name(j)))).map(|x| x.to_bytes()) }
+                "json_output" => { let o = TransactionOutput::new(&g.key_address(), &value);
+                    js(o.to_json()).and_then(|j| dec(TransactionOutput::from_json(&swap_name(j)))).map(|x| x.to_bytes()) }
+                "json_body" | "json_transaction" => {
+                    let mut outs = TransactionOutputs::new(); outs.add(&TransactionOutput::new(&g.key_address(), &value));
+                    let mut b = TransactionBody::new_tx_body(&g.tx_ins(1, 2), &outs, &g.coin());
+                    if g.chance(1, 2) { let mas = MintAssets::new_from_entry(&mname, &Int::new_i32(3)).unwrap(); b.set_mint(&Mint::new_from_entry(&pid, &mas)); }
+                    if l == "json_body" { js(b.to_json()).and_then(|j| dec(TransactionBody::from_json(&swap_name(j)))).map(|x| x.to_bytes()) }
+                    else { let t = Transaction::new(&b, &TransactionWitnessSet::new(), None);
+                           js(t.to_json()).and_then(|j| dec(Transaction::from_json(&swap_name(j)))).map(|x| x.to_bytes()) }
+                }
+                "json_url" => { let t = new_text(g, 128); dec(URL::from_json(&format!("\"{}\"", t))).map(|u| Anchor::new(&u, &anchor_hash(g)).to_bytes()) }
+                "json_anchor" => { let a = Anchor::new(&URL::new(tmarker.to_string()).unwrap(), &anchor_hash(g)); let t = new_text(g, 128);
+                    js(a.to_json()).and_then(|j| dec(Anchor::from_json(&j.replace(tmarker, &t)))).map(|x| x.to_bytes()) }
+                "json_pool_metadata" => { let a = PoolMetadata::new(&URL::new(tmarker.to_string()).unwrap(), &PoolMetadataHash::from_bytes(g.bytes(32)).unwrap()); let t = new_text(g, 128);
+                    js(a.to_json()).and_then(|j| dec(PoolMetadata::from_json(&j.replace(tmarker, &t)))).map(|x| x.to_bytes()) }
+                "json_cert_pool_registration" => {
+                    // both bounded texts of a pool registration: the metadata url and a relay's dns name
+                    let md = PoolMetadata::new(&URL::new(tmarker.to_string()).unwrap(), &PoolMetadataHash::from_bytes(g.bytes(32)).unwrap());
+                    let mut relays = Relays::new(); relays.add(&Relay::new_single_host_name(&SingleHostName::new(None, &DNSRecordAorAAAA::new("qqqdnsmarkerqqq".to_string()).unwrap())));
+                    let (op, vrf, ui, ra, owners) = (g.kh(), g.vrf(), g.unit_interval(), g.reward_any(), g.key_hashes(0, 2));
+                    let p = PoolParams::new(&op, &vrf, &g.coin(), &g.coin(), &ui, &ra, &owners, &relays, Some(md));
+                    let c = Certificate::new_pool_registration(&PoolRegistration::new(&p)); let t = new_text(g, 128);
+                    js(c.to_json()).and_then(|j| dec(Certificate::from_json(&if (k / 8) % 2 == 0 { j.replace(tmarker, &t) } else { j.replace("qqqdnsmarkerqqq", &t) }))).map(|x| x.to_bytes()) }
+                "json_cert_drep_anchor" => { let a = Anchor::new(&URL::new(tmarker.to_string()).unwrap(), &anchor_hash(g));
+                    let c = Certificate::new_drep_update(&DRepUpdate::new_with_anchor(&g.cred_any(), &a)); let t = new_text(g, 128);
+                    js(c.to_json()).and_then(|j| dec(Certificate::from_json(&j.replace(tmarker, &t)))).map(|x| x.to_bytes()) }
+                "json_proposal_anchor" => { let a = Anchor::new(&URL::new(tmarker.to_string()).unwrap(), &anchor_hash(g));
+                    let p = VotingProposal::new(&g.gov_action(6, 0), &a, &g.reward_any(), &g.coin()); let t = new_text(g, 128);
+                    js(p.to_json()).and_then(|j| dec(VotingProposal::from_json(&j.replace(tmarker, &t)))).map(|x| x.to_bytes()) }
+                "json_dns_a" => { let t = new_text(g, 128); dec(DNSRecordAorAAAA::from_json(&format!("\"{}\"", t))).map(|d| Relay::new_single_host_name(&SingleHostName::new(None, &d)).to_bytes()) }
+                "json_dns_srv" => { let t = new_text(g, 128); dec(DNSRecordSRV::from_json(&format!("\"{}\"", t))).map(|d| Relay::new_multi_host_name(&MultiHostName::new(&d)).to_bytes()) }
+                "json_relay" => { let r = if (k / 8) % 2 == 0 { Relay::new_single_host_name(&SingleHostName::new(Some(1), &DNSRecordAorAAAA::new(tmarker.to_string()).unwrap())) }
+                                          else { Relay::new_multi_host_name(&MultiHostName::new(&DNSRecordSRV::new(tmarker.to_string()).unwrap())) };
+                    let t = new_text(g, 128); js(r.to_json()).and_then(|j| dec(Relay::from_json(&j.replace(tmarker, &t)))).map(|x| x.to_bytes()) }
+                "json_metadata_text" | "json_aux_text" => {
+                    let mut m = GeneralTransactionMetadata::new(); m.insert(&bn(7), &TransactionMetadatum::new_text(tmarker.to_string()).unwrap());
+                    let t = new_text(g, 64);
+                    if l == "json_metadata_text" { js(m.to_json()).and_then(|j| dec(GeneralTransactionMetadata::from_json(&j.replace(tmarker, &t)))).map(|x| x.to_bytes()) }
+                    else { let mut a = AuxiliaryData::new(); a.set_metadata(&m);
+                           js(a.to_json()).and_then(|j| dec(AuxiliaryData::from_json(&j.replace(tmarker, &t)))).map(|x| x.to_bytes()) }
+                }
+                _ => return None,
+            }
         }
         "prov_parts_into_transaction" => {
             // body, witness set and auxiliary data each decoded from their own bytes, then assembled
@@ -2175,7 +2252,7 @@ fn exec(toks: &[String]) -> String {
         Some("api") => {
             if toks.len() != 4 { return "harness-badcase".into(); }
             let k: u64 = match toks[3].parse() { Ok(k) => k, Err(_) => return "harness-badcase".into() };
-            if toks[2].starts_with("prov_") || toks[2].starts_with("pin_") {
+            if toks[2].starts_with("prov_") || toks[2].starts_with("pin_") || toks[2].starts_with("json_") {
                 return match prov(&toks[1], &toks[2], k) {
                     Some(Ok(b)) => format!("ok {}", hex_or_dash(&b)), Some(Err(())) => "rejected".to_string(), None => "skip unknown-label".to_string() };
             }
